@@ -355,6 +355,11 @@ def rule_fatal(R):
             msg = ("every exit of Connection::%s that can carry a fatal error of `%s` must pass the latch first"
                    % (name, c.path))
             detail = None
+            if bad and name not in roles.PUBLIC_OPS and _latched_by_every_caller(f, cm, b, code, mark, set().union(*[x[1] for x in bad])):
+                # a private step that hands the error on unlatched, with every one of its callers latching it
+                # (`self.flush_current(..).await.map_err(|err| self.fail_outbound(err))?`)
+                bad = []
+                msg += " (the error leaves this private method unlatched; every caller latches it)"
             if bad:
                 leaf, fatal = bad[0]
                 msg += ": exit at %s may carry %s without latching" % (code.line(leaf["end"]), sorted(fatal))
@@ -437,6 +442,36 @@ def rule_fatal(R):
          where=hb.line(tgt) if tgt is not None else hb.span)
 
     # keep-alive expiry and any other locally constructed Disconnected: rule_ctor
+
+
+def _latched_by_every_caller(f, cm, b, code, mark, leaked):
+    """every Connection method that calls the private method `b` passes the latch on every path from the error edge of that
+    call to a return (one level: the callers themselves must not hand the error further up unlatched)"""
+    ncall = 0
+    for cname, (cb, ccode) in sorted(cm.items()):
+        if ccode.name == code.name:
+            continue
+        for c in [x for x in ccode.calls.values() if x.bb in ccode.reachable and b.name in f.call_targets(x)]:
+            ncall += 1
+            res_sw, q_sites = roles.awaited_result_switches(ccode, c)
+            starts = [si["edges"]["Err"] for si in res_sw if "Err" in si["edges"]]
+            starts += [q["brk"][1] for q in q_sites if q["brk"][1] is not None]
+            if not starts:
+                starts = [c.target]
+            is_root = result_root_pred(ccode, c)
+            for sb in starts:
+                if sb is None:
+                    continue
+                for leaf in paths.explore(ccode, sb, is_root, mark, max_paths=3000):
+                    if leaf["kind"] == "limit":
+                        return False
+                    if leaf["kind"] != "return" or leaf["marked"] or passes_ok_edge(ccode, res_sw, leaf):
+                        continue
+                    # an unlatched error exit of the caller: only tolerable for the variants that are not fatal
+                    vs = paths.refine(set(leaked), leaf["cons"], ("@Err", "0"))
+                    if any(is_fatal(v) for v in vs):
+                        return False
+    return ncall >= 1
 
 
 def passes_ok_edge(code, res_sw, leaf):
